@@ -4,6 +4,7 @@
 import Driver.Codec
 import Svgdx.Ctl.SimpleEval
 import Svgdx.Sched.Retry
+import Driver.Expr
 namespace Driver
 open Svgdx Ctl
 
@@ -27,6 +28,48 @@ def encodeEv : Ev → Str
 
 def natField (n : Nat) : Str := Str.natToStr n
 
+def mapErr : Expr.Err → Err
+  | .parse => .parse
+  | .circular => .circular
+  | .invalidData => .invalidData
+  | .reference => .reference
+  | _ => .other
+
+/-- `EvalState::element_ref`: `#id~scalar` against the geometry context -/
+def elrefOf (c : Ctx) : Str → Expr.Res Float32 := fun v =>
+  match extractElref v with
+  | some (r, '~' :: sc) =>
+    if sc.any Str.isWs then .error .parse
+    else match parseScalarSpec sc with
+      | none => .error .parse
+      | some ss =>
+        match c.get r with
+        | none => .error .reference
+        | some el =>
+          match c.bb el with
+          | .ok (some b) => .ok (F32.ofRat (b.scalarspec ss))
+          | .ok none => .error .reference
+          | .error .parse => .error .parse
+          | .error .invalidData => .error .invalidData
+          | .error .circular => .error .circular
+          | .error _ => .error .reference
+  | _ => .error .parse
+
+/-- the expression evaluator of `Svgdx.Expr` at `Float32` with the PCG32 source, as the control skeleton's evaluator -/
+def realEvalr : Evalr Pcg.Rng where
+  evalAttr := fun c env rng v =>
+    match Expr.evalAttr f32Ops env (elrefOf c) v rng with
+    | .ok r => .ok r
+    | .error e => .error (mapErr e)
+  evalCondition := fun c env rng v =>
+    match Expr.evalCondition f32Ops env (elrefOf c) v rng with
+    | .ok r => .ok r
+    | .error e => .error (mapErr e)
+  evalList := fun c env rng v =>
+    match Expr.evalList f32Ops env (elrefOf c) v rng with
+    | .ok r => .ok r
+    | .error e => .error (mapErr e)
+
 /-- `ctl_doc loopLimit varLimit depthLimit tok…` → status depth scopeHeight elemStackHeight inSpecs outside ev… -/
 def handleCtl (op : Str) (args : List Str) : Option String :=
   if op == cs!"ctl_doc" then
@@ -34,9 +77,9 @@ def handleCtl (op : Str) (args : List Str) : Option String :=
     | ll :: vl :: dl :: toks =>
       let cfg : Cfg := { loopLimit := Num.digitsToNat ll, varLimit := Num.digitsToNat vl, depthLimit := Num.digitsToNat dl }
       let doc := parseDoc (toks.filterMap decodeTok)
-      let st0 : St Nat := { rng := 0, cfg := cfg }
+      let st0 : St Pcg.Rng := { rng := Pcg.seedFromU64 0, cfg := cfg }
       let fuel := 4000 + 40 * toks.length
-      let (st, r) := processNodes simpleEvalr fuel st0 doc
+      let (st, r) := processNodes realEvalr fuel st0 doc
       let status : Str := match r with
         | .ok _ => cs!"ok"
         | .error e => cs!"err:" ++ e.name.toList
